@@ -110,7 +110,9 @@ func bySize(size string) []*pooled {
 	return out
 }
 
-var urls = []string{"http://crl.example/a.crl", "http://crl.example/b.crl", "http://crl.example/A.crl"}
+// three URLs that are different resources but as close as URLs get: a query string (LDAP-style
+// distribution points differ in nothing else) and the letter case of the path
+var urls = []string{"http://crl.example/a.crl", "http://crl.example/a.crl?certificateRevocationList", "http://crl.example/A.crl"}
 
 var hexName = regexp.MustCompile(`^[0-9a-f]{64}$`)
 
